@@ -723,4 +723,97 @@ Section Main.
         split; [exact (if_go_mono P N2 _ _ (Nat.le_max_r N1 N2) _ _ _ _ _ Hi)|].
         split; [exact Hs|]. split; [exact R2|]. split; [eapply gext_trans; eauto | exact Hlen2].
   Qed.
+  Lemma stmt_step f : conds_tie f -> while_tie (S f) -> stmt_tie (S f).
+  Proof.
+    intros IC IW st x lenv E s lenv' br H Rs Fs R G.
+    inversion Rs as [n t e xe Rx|n t e xe Rx| | |c b elifs els xc xb xelifs xels Rc Rb Rl Ro|c b xc xb Rc Rb];
+      subst; cbn [CS.lx_s] in H; simpl in Fs.
+    - (* x := e *)
+      apply andb_true_iff in Fs as [Fn Fe].
+      destruct (C.eval_expr (fun x0 => CS.slook x0 lenv) e) as [v|] eqn:Ev; [|discriminate]. inversion H; subst.
+      destruct (value_copy_tie e xe lenv E s v Rx Fe Ev R G) as (N & c & s2 & Hv & Hh & X2).
+      destruct (decl_tie lenv E s2 n v c (envrel_sext _ _ _ _ X2 R) Fn Hh) as (E' & s3 & Hd & R3 & Hheap & Hlen & Hrest).
+      exists (S N), SigNone, E', s3. split.
+      + cbn [exec_stmt]. rewrite (run_tick _ s G). unfold bindM at 1.
+        unfold bindM at 1 in Hv. destruct (eval_expr N P E xe (tickst s)) as [[v0|er] s1]; [|discriminate].
+        unfold bindM at 1. unfold bindM at 1 in Hv. cbn [depth_fuel] in *.
+        unfold bindM at 1. rewrite Hv. unfold bindM at 1. rewrite Hd. reflexivity.
+      + split; [exact I|]. split; [exact R3|]. split; [|exact Hlen].
+        eapply gext_trans; [apply sext_gext; exact X2|].
+        apply gext_same_heap; [eapply sext_good; eauto | exact Hheap | apply (Hrest s3 eq_refl)].
+    - (* x = e *)
+      apply andb_true_iff in Fs as [Fn Fe].
+      destruct (C.eval_expr (fun x0 => CS.slook x0 lenv) e) as [v|] eqn:Ev; [|discriminate].
+      destruct (CS.sassign n v lenv) as [lenv1|] eqn:Ha; [|discriminate]. inversion H; subst.
+      destruct (value_copy_tie e xe lenv E s v Rx Fe Ev R G) as (N & c & s2 & Hv & Hh & X2).
+      destruct (assign_tie lenv E s2 n v c lenv' (envrel_sext _ _ _ _ X2 R) Fn Hh Ha)
+        as (E' & s3 & Hd & R3 & Hheap & Hlen & Hrest).
+      exists (S N), SigNone, E', s3. split.
+      + cbn [exec_stmt]. rewrite (run_tick _ s G). unfold bindM at 1.
+        unfold bindM at 1 in Hv. destruct (eval_expr N P E xe (tickst s)) as [[v0|er] s1]; [|discriminate].
+        unfold bindM at 1. unfold bindM at 1 in Hv. cbn [depth_fuel] in *.
+        unfold bindM at 1. rewrite Hv. unfold bindM at 1. rewrite Hd. reflexivity.
+      + split; [exact I|]. split; [exact R3|]. split; [|exact Hlen].
+        eapply gext_trans; [apply sext_gext; exact X2|].
+        apply gext_same_heap; [eapply sext_good; eauto | exact Hheap | apply (Hrest s3 eq_refl)].
+    - (* empty statement *)
+      inversion H; subst. exists 1%nat, SigNone, E, (tickst s).
+      split; [cbn [exec_stmt]; rewrite (run_tick _ s G); reflexivity|].
+      split; [exact I|]. split; [eapply envrel_sext; [apply sext_tickst; auto | exact R]|].
+      split; [apply sext_gext, sext_tickst; auto | reflexivity].
+    - (* break *)
+      inversion H; subst. exists 1%nat, SigBreak, E, (tickst s).
+      split; [cbn [exec_stmt]; rewrite (run_tick _ s G); reflexivity|].
+      split; [exact I|]. split; [eapply envrel_sext; [apply sext_tickst; auto | exact R]|].
+      split; [apply sext_gext, sext_tickst; auto | reflexivity].
+    - (* if *)
+      apply andb_true_iff in Fs as [Fs Fo]. apply andb_true_iff in Fs as [Fs Fl]. apply andb_true_iff in Fs as [Fc Fb].
+      destruct (IC (C.CCons c b elifs) els ((xc, xb) :: xelifs) xels lenv E (tickst s) lenv' br H
+                   (c_cons _ _ _ _ _ _ Rc Rb Rl) Ro)
+        as (N & sig & E' & s' & Hi & Hs & R' & X & Hlen).
+      { simpl. rewrite Fc, Fb, Fl. reflexivity. }
+      { exact Fo. }
+      { eapply envrel_sext; [apply sext_tickst; auto | exact R]. }
+      { apply good_tickst; auto. }
+      exists (S N), sig, E', s'. split; [rewrite SemStore.exec_stmt_SIf, (run_tick _ s G); exact Hi|].
+      split; [exact Hs|]. split; [exact R'|]. split; [|exact Hlen].
+      eapply gext_trans; [apply sext_gext, sext_tickst; auto | exact X].
+    - (* while *)
+      apply andb_true_iff in Fs as [Fc Fb].
+      destruct (IW c b xc xb lenv E (tickst s) lenv' br H Rc Rb Fc Fb
+                   (envrel_sext _ _ _ _ (sext_tickst s G) R) (good_tickst s G))
+        as (N & E' & s' & Hw & Hbr & R' & X & Hlen).
+      subst br. exists (S N), SigNone, E', s'.
+      split; [cbn [exec_stmt]; rewrite (run_tick _ s G); exact Hw|].
+      split; [exact I|]. split; [exact R'|]. split; [|exact Hlen].
+      eapply gext_trans; [apply sext_gext, sext_tickst; auto | exact X].
+  Qed.
+
+  Lemma list_step f : stmt_tie f -> list_tie P f -> list_tie P (S f).
+  Proof.
+    intros IS IL l xl lenv E s lenv' br H Rl Fl R G. cbn [CS.lx_l] in H.
+    inversion Rl as [|st t x xt Rs Rt]; subst.
+    - inversion H; subst. exists 1%nat, SigNone, E, s. split; [reflexivity|].
+      split; [exact I|]. split; [exact R|]. split; [apply gext_refl; auto | reflexivity].
+    - simpl in Fl. apply andb_true_iff in Fl as [Fs Ft].
+      dscrut H Hs; [|discriminate H]. destruct p as [env1 br1].
+      destruct (IS st x lenv E s env1 br1 Hs Rs Fs R G) as (N1 & sig & E1 & s1 & Hx & Hsig & R1 & X1 & Hlen1).
+      destruct br1.
+      + inversion H; subst. destruct sig; simpl in Hsig; try contradiction.
+        exists (S N1), SigBreak, E1, s1. split; [cbn [exec_stmts]; rewrite (run_ok _ _ _ _ _ Hx); reflexivity|]. auto.
+      + destruct sig; simpl in Hsig; try contradiction.
+        destruct (IL t xt env1 E1 s1 lenv' br H Rt Ft R1 (gext_good _ _ X1)) as (N2 & sig & E2 & s2 & Hl & Hsig2 & R2 & X2 & Hlen2).
+        exists (S (Nat.max N1 N2)), sig, E2, s2. split.
+        * cbn [exec_stmts]. rewrite (run_ok _ _ _ _ _ (stmt_mono P N1 _ _ _ _ _ _ (Nat.le_max_l N1 N2) Hx)).
+          exact (stmts_mono P N2 _ _ _ _ _ _ (Nat.le_max_r N1 N2) Hl).
+        * split; [exact Hsig2|]. split; [exact R2|]. split; [eapply gext_trans; eauto | congruence].
+  Qed.
+
+  Theorem tie_all : forall f, stmt_tie f /\ list_tie P f /\ conds_tie f /\ while_tie f.
+  Proof.
+    induction f as [|f (IS & IL & IC & IW)].
+    - repeat split; intro; intros; discriminate.
+    - pose proof (while_step f IL IW) as W.
+      split; [apply stmt_step; auto|]. split; [apply list_step; auto|]. split; [apply conds_step; auto | exact W].
+  Qed.
 End Main.
